@@ -83,3 +83,96 @@ Proof.
   - cbn [app run_from fst snd]. destruct (run_from K iv fails st h2); reflexivity.
   - cbn [app run_from fst snd]. rewrite IH. reflexivity.
 Qed.
+
+(* ---------------------------------------------------------------- the main step lemma *)
+Record accs := mkA { a_id : Z; a_n : Z; a_ops : Z; a_size : Z; a_errs : Z; a_dur : Z; a_total : Z;
+                     a_hn : list Z; a_hops : list Z; a_hsize : list Z; a_herrs : list Z;
+                     a_hdur : list Z; a_htotal : list Z; a_el : list err }.
+
+Definition accs_of (K : kind) (iv : Z) (fails : Z -> bool) (w : list (ctx * op)) : accs :=
+  mkA (last_id w)
+      (lsum (wmap (att_n K) w)) (lsum (wmap att_ops w)) (lsum (wmap att_size w)) (lsum (wmap att_errs w))
+      (fold_left (dur_upd K) w 0) (fold_left (total_upd K) w 0)
+      (filter accepts_counter (wmap (att_n K) w)) (filter accepts_counter (wmap att_ops w))
+      (filter accepts_counter (wmap att_size w)) (filter accepts_counter (wmap att_errs w))
+      (filter accepts_timer (wmap att_dur w)) (filter accepts_timer (wmapc (att_total K) w))
+      (errs_of K iv fails w).
+
+Definition acc_step (K : kind) (iv : Z) (fails : Z -> bool) (a : accs) (c : ctx) (o : op) : accs :=
+  mkA (match o with SetID v => v | _ => a_id a end)
+      (a_n a + lsum (att_n K o)) (a_ops a + lsum (att_ops o)) (a_size a + lsum (att_size o))
+      (a_errs a + lsum (att_errs o))
+      (dur_upd K (a_dur a) (c, o)) (total_upd K (a_total a) (c, o))
+      (a_hn a ++ filter accepts_counter (att_n K o)) (a_hops a ++ filter accepts_counter (att_ops o))
+      (a_hsize a ++ filter accepts_counter (att_size o)) (a_herrs a ++ filter accepts_counter (att_errs o))
+      (a_hdur a ++ filter accepts_timer (att_dur o)) (a_htotal a ++ filter accepts_timer (att_total K c o))
+      (a_el a ++ call_errs K iv fails c o).
+
+Definition acc0 : accs := mkA 0 0 0 0 0 0 0 [] [] [] [] [] [] [].
+
+Lemma accs_of_nil K iv fails : accs_of K iv fails [] = acc0.
+Proof. reflexivity. Qed.
+
+Lemma accs_of_snoc K iv fails w c o :
+  accs_of K iv fails (w ++ [(c, o)]) = acc_step K iv fails (accs_of K iv fails w) c o.
+Proof.
+  unfold accs_of, acc_step, wmap, wmapc, errs_of, last_id.
+  rewrite !flat_map_app, !fold_left_app, !filter_app, !lsum_app.
+  cbn [flat_map fold_left fst snd]. rewrite !app_nil_r. reflexivity.
+Qed.
+
+Definition pt_of_accs (K : kind) (ts : Z) (a : accs) (g : gauges) : point :=
+  if is_hist K then
+    mkP ts (a_id a) 0 0 0 0 0 0 (mkH (a_hn a) (a_hops a) (a_hsize a) (a_herrs a) (a_hdur a) (a_htotal a)) g
+  else
+    mkP ts (a_id a) (wrap64 (a_n a)) (wrap64 (a_ops a)) (wrap64 (a_size a)) (wrap64 (a_errs a))
+        (wrap64 (a_dur a)) (wrap64 (a_total a)) hists0 g.
+
+Lemma point_of_accs K iv fails ts w g : point_of K ts w g = pt_of_accs K ts (accs_of K iv fails w) g.
+Proof. reflexivity. Qed.
+
+Definition st_of (K : kind) (c : ctx) (a : accs) (g : gauges) : state :=
+  mkS (pt_of_accs K (c_ts c) a g) (c_started c) (c_last c) (a_el a) (c_adds c).
+
+Ltac unf :=
+  cbv beta iota zeta delta [step end_test end_iter tick reset begin set_dur set_total inc_n inc_ops inc_size inc_errs
+    end_raw end_single end_grouped end_interval end_hist end_hist_single end_hist_grouped
+    end_hist_interval end_hist_records persist_if_stamped add_elapsed hrec_elapsed
+    hrec_n hrec_ops hrec_size hrec_errs hrec_dur hrec_total hrec
+    set_hn set_hops set_hsize set_herrs set_hdur set_htotal
+    add_n add_ops add_size add_errs add_dur add_total persist stamp set_gauges
+    st_pt st_started st_last st_err
+    with_ts with_id with_n with_ops with_size with_errs with_dur with_total with_h with_g
+    fresh_point no_out hists0
+    st_of pt_of_accs acc_step acc0 call_errs rejected rej persists ctx_step persist_ts
+    att_n att_ops att_size att_errs att_dur
+    att_total elapsed dur_upd total_upd g_step is_reset grouped begin_stamps is_hist
+    p_ts p_id p_n p_ops p_size p_errs p_dur p_total p_h p_g
+    s_pt s_started s_last s_errs s_adds g_state g_workers g_failed
+    h_n h_ops h_size h_errs h_dur h_total c_ts c_started c_last c_adds
+    a_id a_n a_ops a_size a_errs a_dur a_total a_hn a_hops a_hsize a_herrs a_hdur a_htotal a_el
+    fst snd negb].
+
+Ltac split_ifs :=
+  repeat (first [ match goal with H : ?b = _ |- context[if ?b then _ else _] => rewrite H end
+                | match goal with |- context[if ?b then _ else _] => destruct b eqn:? end ];
+          cbn [app filter map lsum fold_right negb]).
+
+Ltac fin :=
+  cbn; rewrite ?wrap64_add_l, ?wrap64_idem, ?wrap64_0, ?Z.add_0_r, <- ?app_assoc, ?app_nil_r; cbn;
+  try reflexivity.
+
+Lemma step_acc K iv fails c a g o :
+  step K iv fails (st_of K c a g) o =
+  (st_of K (ctx_step K iv c o) (if is_reset o then acc0 else acc_step K iv fails a c o) (g_step g o),
+   mkO (if persists K iv c o then [pt_of_accs K (persist_ts K c o) (acc_step K iv fails a c o) (g_step g o)] else [])
+       (match o with EndTest _ => Some (a_el (acc_step K iv fails a c o)) | _ => None end)).
+Proof.
+  destruct c as [ts started last adds].
+  destruct a as [aid an aops asize aerrs adur atotal hn hops hsize herrs hdur htotal el].
+  destruct o; destruct K; unf.
+  all: cbn [app filter map lsum fold_right negb].
+  all: split_ifs; fin.
+  all: try (repeat f_equal; lia).
+Qed.
+
